@@ -81,7 +81,8 @@ def gen_cases(tier):
     # every ordered pair (thorough: triple) of texts through parse_from_file in one process, with equal or different settings, and
     # with the target directory removed between two dumps
     for tks in itertools.product(list(TEXTS), repeat=3 if tier == "thorough" else 2):
-        for si in ((0, 0), (0, 1), (3, 3)):
+        # (equal settings; default then non-default; non-default then default / then none at all: nothing may carry over)
+        for si in ((0, 0), (0, 1), (3, 3), (1, 0), (5, 2), (3, 0), (1, 6)):
             for rm in (False, True):
                 cases.append({"kind": "seq", "names": ["f%d.sql" % i for i in range(len(tks))], "texts": list(tks), "settings": list(si), "rm_target": rm})
     return cases
@@ -90,7 +91,8 @@ def gen_cases(tier):
 # (parser_settings, run() keyword arguments passed through parse_from_file)
 SETTINGS = [({}, {"output_mode": "sql"}), ({"normalize_names": True}, {"output_mode": "hql"}), ({}, {"group_by_type": True}),
             ({"silent": False}, {"json_dump": True}), ({}, {"output_mode": "bigquery", "group_by_type": True, "json_dump": True}),
-            ({"normalize_names": True, "silent": True}, {})]
+            ({"normalize_names": True, "silent": True}, {}),
+            (None, {})]  # parser_settings not given at all
 
 
 def tree(path):
@@ -108,7 +110,7 @@ def api_case(case):
     text = TEXTS[case["text"]]
     enc, name, ts, dump = case["enc"], case["name"], case["target"], case["dump"]
     settings, runkw = SETTINGS[case["settings"]]
-    settings = dict(settings)
+    none_given, settings = settings is None, dict(settings or {})
     D = []
     d = tempfile.mkdtemp(prefix="c19_", dir=sut.scratch_base())
     cwd = os.getcwd()
@@ -132,7 +134,7 @@ def api_case(case):
         before_src = tree(src)
         settings_copy = dict(settings)
         try:
-            r = norm(parse_from_file(fp, encoding=enc, parser_settings=settings, dump=dump, dump_path=tgt, **runkw))
+            r = norm(parse_from_file(fp, encoding=enc, parser_settings=None if none_given else settings, dump=dump, dump_path=tgt, **runkw))
         except Exception as e:  # noqa
             return [diff("parse_from_file", "raises:" + type(e).__name__, "result", str(e)[:120])]
         if r != exp:
@@ -262,13 +264,14 @@ def seq_case(case):
             open(fp, "w", encoding="utf-8").write(TEXTS[tk])
             sis = case.get("settings") or [0, 0]
             settings, runkw = SETTINGS[sis[i % len(sis)]]
+            none_given, settings = settings is None, (settings or {})
             if case.get("rm_target") and i > 0:
                 shutil.rmtree(tgt, ignore_errors=True)
                 model = {}
             exp = norm(DDLParser(TEXTS[tk], **settings).run(**runkw))
             exp_file = norm(DDLParser(TEXTS[tk], **settings).run(**{k: v for k, v in runkw.items() if k != "json_dump"}))
             try:
-                r = norm(parse_from_file(fp, encoding="utf-8", parser_settings=dict(settings), dump=True, dump_path=tgt, **runkw))
+                r = norm(parse_from_file(fp, encoding="utf-8", parser_settings=None if none_given else dict(settings), dump=True, dump_path=tgt, **runkw))
             except Exception as e:  # noqa
                 D.append(diff("invocation %d" % i, "raises:" + type(e).__name__, "result", str(e)[:120]))
                 break
